@@ -59,7 +59,8 @@ CLAIMS = {
              "sub-triangles of a small cell universe in both bases; the Lean Spec judges the implementation's answers.",
         note=COMMON_NOTE + "NaN-free data; 0-d arrays excluded from hash clauses (tuple(v) fails); builtin hash() is "
              "trusted to respect == on int/float/str/date/tuple/frozenset."
-             " Audit follow-up: triEq_iff_contents states the headline 'exactly when' clause as one iff; spec_cellHash / spec_metaEq / spec_metaHash bridge the remaining Spec clauses; equal cells are hashable together with the same key (hashKey_ok_of_cellEq, hashable_iff_of_cellEq) EXCEPT when one holds a 0-d array where the other holds the scalar (== holds, hash raises for the 0-d array: kernel-checked example). Domain: triangles of one basis; a plain Cell compared with an IncrementalCell of identical content raises AttributeError (modelled, outside the property).",
+             " Audit follow-up: triEq_iff_contents states the headline 'exactly when' clause as one iff; spec_cellHash / spec_metaEq / spec_metaHash bridge the remaining Spec clauses; equal cells are hashable together with the same key (hashKey_ok_of_cellEq, hashable_iff_of_cellEq) EXCEPT when one holds a 0-d array where the other holds the scalar (== holds, hash raises for the 0-d array: kernel-checked example). Domain: triangles of one basis; a plain Cell compared with an IncrementalCell of identical content raises AttributeError (modelled, outside the property)."
+             " Claim check (hypotheses the sentences above omit): cellEq_iff holds under the constructor's date rules and key-sorted detail dicts on both cells (the hypothesis-free form is cellEq_iff_code; triEq_iff has no hypotheses); transitivity needs the date rules on all three operands; the hash-together theorems need NO 0-d array value on either side (Dict.noZeroD) and the date rules; inter_spec / diff_spec need an operand of one cell class (kindsConsistent); tables_hash compares the probed hash-dependency table (which single-component changes move hash()) with the components the model's hash keys contain.",
         tech="Lean 4 proof (iff characterisation, counting argument for edits) + probed hash tables + truth-table "
              "correspondence"),
     "C03": dict(level=PV, ref="§7 C03, §12.6",
@@ -124,7 +125,8 @@ CLAIMS = {
         note=COMMON_NOTE + "gzip and UTF-8 are trusted library layers. Domain: metadata that Python's == identifies "
              "share one representation (1 vs 1.0 vs True, dict order); int limit reads back as float; numpy scalar "
              "types read back as Python scalars; NaN limit is the format's encoding of None."
-             " Audit follow-up: decode_encodePy_firstRepr : WF t -> decode (encodePy t) = ok (firstRepr t) holds for EVERY triangle of the domain (no coherence hypothesis: metadata that Python's == identifies come back in the first cell's representation) and is the read-back oracle of the md-repr stream; fromBinary_encode / fromBinary_encodePy carry the round trip through the final Triangle(cells); roundtrip_compressed_py for the writer as written. Generated triangles hold no NaN among detail values / limits (byte-exact comparison only; the theorem itself has no such restriction).",
+             " Audit follow-up: decode_encodePy_firstRepr : WF t -> decode (encodePy t) = ok (firstRepr t) holds for EVERY triangle of the domain (no coherence hypothesis: metadata that Python's == identifies come back in the first cell's representation) and is the read-back oracle of the md-repr stream; fromBinary_encode / fromBinary_encodePy carry the round trip through the final Triangle(cells); roundtrip_compressed_py for the writer as written. Generated triangles hold no NaN among detail values / limits (byte-exact comparison only; the theorem itself has no such restriction)."
+             " Claim check: pool_index_never_dict_end quantifies over the keys USED by the triangle (k in allKeys t: found in the padded pool at an index j with j % 256 != DICT_END); roundtrip_compressed assumes the reader infers the written flavour (inferCompress ext flag = ok c); fromBinary_encode / fromBinary_encodePy assume that the numeric view of t (resp. firstRepr t) exists and is canonical (C01.Canonical: sorted, one class, date rules); roundtrip_compressed_py is for COHERENT triangles (the file-level statement for non-coherent triangles follows from decode_encodePy_firstRepr but is not stated).",
         tech="Lean 4 proof (parser/printer round trip by per-class lemmas and induction over records) + regenerated "
              "constants + byte-exact bidirectional correspondence"),
     "C06": dict(level=PV, ref="§7 C05/C06/C19",
@@ -166,7 +168,8 @@ CLAIMS = {
              "text printed by the Lean driver and by an independent serializer loaded by the implementation.",
         note=COMMON_NOTE + "json text layer and float repr round trip trusted (exercised with non-dyadic floats in a "
              "separate stream). Domain (WFjson): risk_basis not None; keys avoid the hook's trigger names; years >= 1000."
-             " Audit follow-up, exact domain WFjson: risk_basis not None; field / detail keys avoid the hook's trigger names; detail values str/int/float/bool (no None detail values, no bool limit); scalars int/float/None; arrays 1-d int64/float64 and non-empty for int64 (rank-2 arrays and empty int64 arrays outside); metadata that == identifies appear in one representation (mdCoherent); years >= 1000; NaN, +-inf and -0.0 cannot be expressed in the model (generated separately, compared on the implementation only). Witnesses ex_empty_int64_array, ex_bool_limit, ex_none_detail_value, ex_rank2_flat_in_model, ex_mdCoherent; non-vacuity ex2_wf / ex2_roundtrip (2 slices, 5 cells).",
+             " Audit follow-up, exact domain WFjson: risk_basis not None; field / detail keys avoid the hook's trigger names; detail values str/int/float/bool (no None detail values, no bool limit); scalars int/float/None; arrays 1-d int64/float64 and non-empty for int64 (rank-2 arrays and empty int64 arrays outside); metadata that == identifies appear in one representation (mdCoherent); years >= 1000; NaN, +-inf and -0.0 cannot be expressed in the model (generated separately, compared on the implementation only). Witnesses ex_empty_int64_array, ex_bool_limit, ex_none_detail_value, ex_rank2_flat_in_model, ex_mdCoherent; non-vacuity ex2_wf / ex2_roundtrip (2 slices, 5 cells)."
+             " Claim check: in the model a string / handle / file is identified with the AST it holds, so roundtrip_every_route is fromDict_toDict plus the modelled dispatch (which function each entry point calls, the truthiness test of triangle_to_json's file argument); text and file I/O are outside. fromDict_plain states fromDict j = ofJCells cells (a constructor refusal included). WFjson additionally requires: years 1000..9999, keys unique per dict, limit None/int/float, int64 array entries within int64, cells sorted, of one class and satisfying the constructor's date rules.",
         tech="Lean 4 model of encoder/decoder over a JSON AST + differential correspondence through plain parsers"),
     "C08": dict(level=PV, ref="§7 C08",
         text="14 kernel-checked theorems about the model of aggregate: window_consecutive/window_step/window_spec, "
@@ -199,7 +202,7 @@ CLAIMS = {
         tech="Lean 4 theorems over regenerated rule tables (decide +kernel) and over Q + differential correspondence"),
     "C11": dict(level=PV, ref="§7 C11",
         text="85 kernel-checked theorems, none open, about clip (six inclusive bounds incl. development lag in "
-             "month/day/timedelta units), filter, select, right_edge, slices, split, EVERY branch of Triangle.__getitem__ "
+             "month/day/timedelta units), filter, select, right_edge, slices, split, every branch of Triangle.__getitem__ on the modelled index forms "
              "(int, positional slice, 3-index forms with date / open-ended slice / junk components, arity refusals), "
              "TriangleSlice (constructor refusal of several slices, its 2-index __getitem__, utils/slice.py), "
              "is_right_edge_ragged and extract: sliceOfCells_eq/_multi, sliceGetItem_eq_filter, sliceItemSpec_model, getItemSpec_model, "
@@ -214,7 +217,8 @@ CLAIMS = {
              "(tools/anchor_coverage.py): every anchored statement and branch arc of C11 is executed by the quick run.",
         note=COMMON_NOTE + "Month lags are floats in the code and exact rationals in the model: lag bounds are the "
              "triangle's own lags (bit-identical) and lags +-1, kept where float and exact comparison agree."
-             " Domain: canonical triangles (C01's invariant); period starts within date.min..date.max; clip lag bounds of the unit's type; for the n / n+1 lag complement every lag of the triangle is a whole number in the unit (always true for day / timedelta). Behaviour the words leave open, pinned by theorems: an absent detail key and one holding None land in the same split group (splitKey_missing_eq_none); a date as period index constrains the period start only (itemKeep_scalar). Not modelled: a falsy non-None end of an evaluation slice, truthy non-date slice ends, datetime.datetime indices; stepped positional slices t[i:j:k] are compared with C01's model only.",
+             " Domain: canonical triangles (C01's invariant); period starts within date.min..date.max; clip lag bounds of the unit's type; for the n / n+1 lag complement every lag of the triangle is a whole number in the unit (always true for day / timedelta). Behaviour the words leave open, pinned by theorems: an absent detail key and one holding None land in the same split group (splitKey_missing_eq_none); a date as period index constrains the period start only (itemKeep_scalar). Not modelled: a falsy non-None end of an evaluation slice, truthy non-date slice ends, datetime.datetime indices; stepped positional slices t[i:j:k] are compared with C01's model only."
+             " Claim check: the *_eq_filter and *Spec_model theorems carry Canon t, period starts within date.min..date.max and index components that are not 'bad'; the TriangleSlice versions also need a single slice; getItem_bad_period is proved with metadata index None; clip_complement_partition is the max_eval = b / min_eval = b + 1 day pair, the other bounds are clip_*_complement and clip_wholeLag / _dayLag_complement_partition.",
         tech="Lean 4 proof (filter/sublist/partition algebra on sorted lists) + differential correspondence"),
     "C12": dict(level=PV, ref="§7 C12",
         text="53 kernel-checked theorems, none open, about the exact model of date_utils (incl. the date.max / inf sentinel short-circuits of calculate_dev_lag and add_months, Model/DateUtilsExt): addMonths_devLag_iff (the inverse law "
@@ -232,7 +236,8 @@ CLAIMS = {
         note=COMMON_NOTE + "IEEE rounding inside add_months/dev_lag_months is not modelled (decided by enumeration on the "
              "stated range). Known finding D8 (results before 1970-01-01) is listed in known_findings.json and printed "
              "as KNOWN-FINDING; any failing input with expected result >= 1970 is a violation."
-             " Audit follow-up: resolution_delta is also modelled on RAW unit strings as written (resolutionDeltaRaw_*: the function tests units == 'month' on the raw string, so (1,'months'), 'quarter', 'year', 'week' add ONE DAY) - an unvalidated precondition: every caller in /repo passes standardised units or raw 'days'; the property's clauses are claimed after standardize_resolution. Compose / undo (addMonths_add, addMonths_neg) are judged on the implementation through Spec.composeOk / undoOk on month-end starts 1900-2100 (spec_compose, spec_undo); ordinal_ofOrdinal is a property theorem. Fractional offsets differ from the code at round() ties of frac x days_in_month (exact half-even vs float): those inputs are excluded from the model comparison, the inverse law is still demanded of their results.",
+             " Audit follow-up: resolution_delta is also modelled on RAW unit strings as written (resolutionDeltaRaw_*: the function tests units == 'month' on the raw string, so (1,'months'), 'quarter', 'year', 'week' add ONE DAY) - an unvalidated precondition: every caller in /repo passes standardised units or raw 'days'; the property's clauses are claimed after standardize_resolution. Compose / undo (addMonths_add, addMonths_neg) are judged on the implementation through Spec.composeOk / undoOk on month-end starts 1900-2100 (spec_compose, spec_undo); ordinal_ofOrdinal is a property theorem. Fractional offsets differ from the code at round() ties of frac x days_in_month (exact half-even vs float): those inputs are excluded from the model comparison, the inverse law is still demanded of their results."
+             " Claim check: addMonths_add / addMonths_neg hold for MONTH-END starts and integer offsets (not claimed for mid-month starts or fractional offsets); addMonths_int_monthId needs the target month from 1970-01 on (addMonths_int_pre1970: one month late before); ordinal_ofOrdinal is one direction ((ofOrdinal n).ordinal = n for n in 1..3652059); devLag_days_eq_ordinal_diff is definitional, its calendar meaning is ordinal_counts_days; the thorough enumeration covers every date 1970-2100 x every integer k in [-600, 600] whose target month stays within 1970-01..2100-12.",
         tech="Lean 4 theorems over Q (floor/round arithmetic) + exhaustive enumeration digests from the compiled model"),
     "C13": dict(level=PV, ref="§7 C13",
         text="63 kernel-checked theorems (incl. is_slicewise_disjoint and slice_period_rows, Model/AccessorsExt): every accessor equals the sorted-distinct values / counts of the cells "
@@ -245,7 +250,8 @@ CLAIMS = {
              "independently written Spec definitions over regular / semi-regular / irregular / erratic layouts.",
         note=COMMON_NOTE + "Month-unit taxonomy compared only where float (in)equalities agree with the exact ones "
              "(guard counts in the evidence)."
-             " Audit follow-up: 33 earlier + 43 new property theorems (29 helpers moved to Lemmas/AccessorsHelpers.lean): evalDateResolution_spec / _defined / _same_month / _distinct_months; periodResolution_largest (0 < r, greatest), _defined_iff; experienceGaps_sound / _complete / _ascending / _inverted_iff; fifteen spec_* bridges (sortedDistinct, counts, numSamples, gaps, common, recombine, both resolutions). Readings declared: eval_date_resolution returns 0 (not None) when >= 2 evaluation dates lie in one month - degenerate, every month count divides a zero gap (evalDateResolution_same_month); experience_gaps are specified for disjoint periods - for overlapping periods the code reports inverted ranges (experienceGaps_inverted_iff; the Spec clause is gated by disjoint).",
+             " Audit follow-up: 33 earlier + 43 new property theorems (29 helpers moved to Lemmas/AccessorsHelpers.lean): evalDateResolution_spec / _defined / _same_month / _distinct_months; periodResolution_largest (0 < r, greatest), _defined_iff; experienceGaps_sound / _complete / _ascending / _inverted_iff; fifteen spec_* bridges (sortedDistinct, counts, numSamples, gaps, common, recombine, both resolutions). Readings declared: eval_date_resolution returns 0 (not None) when ALL evaluation dates lie in ONE calendar month and at least two of them differ (evalDateResolution_same_month) - degenerate, every month count divides a zero gap; as soon as two calendar months occur the result is positive and the largest common divisor of the gaps between distinct months (evalDateResolution_distinct_months); experience_gaps are specified for disjoint periods - for overlapping periods the code reports inverted ranges (experienceGaps_inverted_iff; the Spec clause is gated by disjoint)."
+             " Claim check (hypotheses): metadata_eq_sortedDedup / recombine_diff / spec_recombineSpec for canonical metadata (key-sorted detail dicts); common_keeps_exactly_shared / spec_commonSpec for detail dicts with distinct keys; the disjointness and taxonomy equivalences for cells with period_start <= period_end and an explicitly given dev-lag unit; resolution_dvd_all / resolution_greatest speak about _multi_gcd in the divisibility order (the accessor statements are periodResolution_largest and evalDateResolution_spec); 76 counts the public theorems (9 private helpers are not counted); sixteen spec_* bridges in total.",
         tech="Lean 4 theorems (sortedDedup, gcd, pairwise non-overlap) + differential correspondence"),
     "C14": dict(level=PV, ref="§7 C14",
         text="PARTIAL (pandas' CSV text layer - dtype inference, NaN handling, date parsing, float formatting - is library behaviour outside the model, correspondence only; the row algebra is proved). 65 kernel-checked theorems, none open. Row-algebra model of the wide/long CSV writers and readers, the array data frame and the Matrix form. "
@@ -318,13 +324,14 @@ CLAIMS = {
         text="PARTIAL (the statistical clause 'follows the weights' and numpy's RNG are outside the model; everything structural and algebraic is proved). 29 kernel-checked theorems, none open, about the model of blend: linear_value (out = sum w_j v_j with scalar "
              "broadcast), linear_convex, linear_agree, percell_alignment, global/list/dict weight normalisation, "
              "mixture_membership for EVERY index vector, mixture_scalar_passthrough, blend_structure, "
-             "blend_value_composed, ten refusal theorems and Spec bridges. numpy's RNG draws are captured in-process and handed to the "
+             "blend_value_composed, twelve refusal theorems (thirteen with dict_wrong_columns_refused) and seven Spec bridges. numpy's RNG draws are captured in-process and handed to the "
              "model as parameters; 'follows the weights' is statistical and outside the model. Correspondence: dumps "
              "(exact on dyadic data) for 1-4 triangles x all weight forms x both methods x seeds, Spec membership on the "
              "implementation's output, seed reproducibility, degenerate weights.",
         note=COMMON_NOTE + "Outside the model: numpy RNG stream, the statistical clause 'follows the weights'; relative "
              "tolerance 2^-40 only where weights=None with three triangles (1/3)."
-             " Audit follow-up: spec_convex / spec_agree (convexity and agreement on the blend's OUTPUT; agreement stated for copies of one canonical triangle), blend_refuses_missing_coord / blend_refuses_unequal_scalars (lifted to blend = error; the class ValueError is proved at the failing cell since an earlier cell can pre-empt it), linear_value states that every input row has length 1 or exactly S (and Spec.linearFieldOk checks it on every implementation output), closed success instance blend [blExA, blExB] = ok blExOut. The RNG-interface check is positional: the k-th recorded np.random.choice call must carry the weight vector of the cell being blended. The seeding structure (same (S, p) gives the same index vector for a fixed seed) is observed by the harness, not modelled.",
+             " Audit follow-up: spec_convex / spec_agree (convexity and agreement on the blend's OUTPUT; agreement stated for copies of one canonical triangle), blend_refuses_missing_coord / blend_refuses_unequal_scalars (lifted to blend = error; the class ValueError is proved at the failing cell since an earlier cell can pre-empt it), linear_value states that every input row has length 1 or exactly S (and Spec.linearFieldOk checks it on every implementation output), closed success instance blend [blExA, blExB] = ok blExOut. The RNG-interface check is positional: the k-th recorded np.random.choice call must carry the weight vector of the cell being blended. The seeding structure (same (S, p) gives the same index vector for a fixed seed) is observed by the harness, not modelled."
+             " Claim check (hypotheses): the blend-level theorems (blend_structure, blend_value_composed, spec_structure, spec_agree, blend_refuses_missing_coord) assume a canonical first triangle; spec_linear / spec_mixture / spec_convex / blend_refuses_unequal_scalars pairwise distinct coordinates in every input; the Spec form of the membership (mixture_membership_exists, spec_mixture) assumes every drawn index below the number of triangles (mixture_membership itself is unconditional in the index vector); the closed success instance is Lemmas/BlendBridge.blEx_blend, used by an example (not counted).",
         tech="Lean 4 theorems over Q on a blend model with the RNG draws as parameters + differential correspondence"),
     "C17": dict(level=PV, ref="§7 C17, §12.6",
         text="PARTIAL (the DISTRIBUTION of the draws - volume weights of rng.choice, uniformity of rng.uniform, numpy's samplers, hence the realised mean/variance "
@@ -348,7 +355,8 @@ CLAIMS = {
              "series in the harness/Spec slack only. Numeric-only Python checks: moment_match mean/std bands, lognormal parameters."
              " Audit follow-up: bootstrap-level bridges spec_bootstrap_structure, spec_first_unchanged (develop_first_unchanged lifted through _bootstrap_slice, the tag and sum(boot)), spec_bootstrapD (hypotheses: pairwise distinct coordinates, tag-injective metadata, uniform field names, canonical triangle; satisfiable by a closed example); the value clauses membership / chain / reproduces are evaluated by the driver on implementation and model outputs but have no bridge theorem (Prop form: develop_value, chain_identity, resampledAtas_identity). The probability vector p handed to rng.choice (volume weights incl. eval_date_resolution: ata_weights_probability), the call shape of every RNG call (thin: one choice(n, k, replace=False) with ValidDraw - thin_positions_count; age-to-age: choice(range(m), size=m, p, replace=True) per lag and field with the same p in every replicate) and the moments handed to the sampler are modelled and compared at the RNG interface; only the DISTRIBUTIONS realised by numpy and the lognormal parameters stay outside. me_bootstrap_limits_bind_iff is the exact signature of D26. The maximum-entropy Spec clauses mePermOk / meValueOk / meIntervalsOk and chainOkSlice / weightsOk / momentsOk are differential (they re-run the model's arithmetic); independent clauses: rankOrderOk, rankFixed, meLimitsOk, meEnvelopeOk. No kernel-checked closed instance of bootstrap = ok (mergeSort is not kernel-evaluable; closed instances exist for thin and momentMatch)."
              " Final round: me_centre_width and spec_me_independent restate the maximum-entropy value and interval clauses WITHOUT the model's quantile function (centre +- width/2 of the draw's grid cell floor(u*n); meValueCWOk / meIntervalsCWOk, which together with rankFixed determine the replicate), so those clauses are no longer differential; chain_step_ok / spec_chain_cells: every developed cell satisfies the per-cell chain clause against the developed cell before it. Still declared: chainOkSlice / ataMembershipOk / reproducesSlice = true on the whole bootstrapD output (missing: monotonicity of calculateDevLag in the evaluation date, the Spec's own ratio table, the upper-left-shape argument) - evaluated by the driver on model and implementation outputs in every run."
-             " Last round (supersedes the 'missing: monotonicity' remark above): dev_lag_strict_mono (the month lag is strictly monotone in the evaluation date, any day of the month) and spec_chain_slice / spec_chain_replicate (chainOkSlice = true for the replicate of ONE slice - all cells one metadata, sorted, distinct coordinates and dict keys, age-to-age method - i.e. what _bootstrap_slice computes from numpy's index draws; hypothesis RowsByLag - the cells of a period with a smaller lag end with the list predecessor - exhibited on a 2x2 square). Still declared: RowsByLag is not yet derived from 'sorted slice with valid dates'; the lift to the k-th slice inside the summed multi-slice replicate; ataMembershipOk and reproducesSlice.",
+             " Last round (supersedes the 'missing: monotonicity' remark above): dev_lag_strict_mono (the month lag is strictly monotone in the evaluation date, any day of the month) and spec_chain_slice / spec_chain_replicate (chainOkSlice = true for the replicate of ONE slice - all cells one metadata, sorted, distinct coordinates and dict keys, age-to-age method - i.e. what _bootstrap_slice computes from numpy's index draws; hypothesis RowsByLag - the cells of a period with a smaller lag end with the list predecessor - exhibited on a 2x2 square). Still declared: RowsByLag is not yet derived from 'sorted slice with valid dates'; the lift to the k-th slice inside the summed multi-slice replicate; ataMembershipOk and reproducesSlice."
+             " Very last round: rows_by_lag (SliceLayout s -> RowsByLag s: sorted by Cell.le, one metadata, calendar-valid evaluation dates, distinct evaluation dates within a period) removes the RowsByLag hypothesis: spec_chain_slice_layout, spec_chain_replicate_layout, and spec_chain_bootstrapD_single (chainOkSlice holds for every replicate of the model's bootstrapD output on a ONE-slice triangle). Still declared: the k-th slice of a multi-slice replicate; ataMembershipOk and reproducesSlice; no closed instance of bootstrap = ok.",
         tech="Lean 4 theorems over Q on models of the three resamplers with the RNG draws as parameters + Spec predicates on "
              "implementation outputs + differential correspondence"),
     "C18": dict(level=PV, ref="§7 C18",
@@ -371,7 +379,8 @@ CLAIMS = {
              "Policy-year conversion with continuous_issuance=False "
              "and accident periods no policy reaches is outside the share table's contract (reported as uncovered)."
              " Audit follow-up: policyYear_conserves assumes policyCovered; by policyYear_covered_iff this is exactly 'every accident period is reached by a policy year of policy_years_covered' (month arithmetic on the inputs; policyYear_conserves_reached); with continuous issuance every first-of-month period start contained in a policy year is reached (policyYear_reached_of_contains); that the policy years contain every period start is evaluated by the driver on every case, not proved. currency_spec_bridge assumes no two cells collide after conversion; for twin-slice inputs (slices identical after conversion: the library keeps both cells and only warns) the statement is currency_spec (bijection, no such hypothesis; closed instance currency_twin_slices). aggregate_disagg precisely: aggregate(disaggregate_experience(t)) at the original resolution returns exactly the SELECTED fields (default DEFAULT_INTERPOLATION_FIELDS) of the cells of t whose first sub-period is over at their evaluation date, as CumulativeCells with the same metadata, period and evaluation date, each once and in triangle order, with exactly the input's numbers (ints come back as equal floats); every other field and every cell without an observable sub-period is dropped (disagg_drops_unselected, disagg_drops_unobservable); cumulative / plain-Cell triangles only - disaggregate_experience on incremental triangles is not modelled and not generated. One shape per field within a slice is assumed (the code does not check it)."
-             " Final round: policyYear_covered_of_continuous (1 <= len, month-aligned periods from 1971 on: with continuous issuance policyCovered HOLDS, for every origin incl. arbitrary days) and policyYear_conserves_continuous (conservation with input-level hypotheses only) supersede the 'not proved' sentence above for continuous issuance; currency_spec_bridge_sorted (the executable predicate holds on the model's output for a sorted triangle with canonical metadata and pairwise distinct coordinates BEFORE conversion - no collision hypothesis; the greedy matching succeeds because the stable sort keeps colliding cells in input order). Still declared: point issuance with policy_length_months < 11 drops accident periods no policy year reaches (exact condition: policyYear_covered_iff).",
+             " Final round: policyYear_covered_of_continuous (1 <= len, month-aligned periods from 1971 on: with continuous issuance policyCovered HOLDS, for every origin incl. arbitrary days) and policyYear_conserves_continuous (conservation with input-level hypotheses only) supersede the 'not proved' sentence above for continuous issuance; currency_spec_bridge_sorted (the executable predicate holds on the model's output for a sorted triangle with canonical metadata and pairwise distinct coordinates BEFORE conversion - no collision hypothesis; the greedy matching succeeds because the stable sort keeps colliding cells in input order). Still declared: point issuance with policy_length_months < 11 drops accident periods no policy year reaches (exact condition: policyYear_covered_iff)."
+             " Claim check: aggregate_disagg additionally assumes disaggWF (decidable, evaluated by the driver on every case: per slice the resolution L is a positive multiple of res, every period starts on the first of a month from 1970 on and is exactly L months long, no repeated cell, distinct value keys, disjoint periods at equal evaluation dates), no evaluation resolution, and that every selected field occurring in t is summarised as 'sum of itself'; its conclusion is a disjunction (nothing is claimed when disaggregate_experience returned t unchanged); aggregate_disagg_default is for fields=None and summarize_premium=True; disagg_tiling: for a period starting on the first of a month from 1970 on, sub-period k is the closed-form whole res-month block, consecutive blocks abut, the observable ones are a prefix (that the blocks exhaust the period needs the L-month length of disaggWF); disagg_drops_unselected / _unobservable are closed witnesses (the general fact is inside aggregate_disagg); the currency refusals give 'some error', the class ValueError is currency_refusal_class when no currency field is None; policyYear_conserves is per Policy-basis slice under policyCovered and UniformShapes (one shape per field within a slice, a hypothesis of the policy-year theorems); 'policy_length_months < 11' is a reading, the exact condition is policyYear_covered_iff.",
         tech="Lean 4 proof over Q (conservation laws, round trip through aggregate) + regenerated tables + differential correspondence"),
     "C20": dict(level=PV, ref="§7 C20",
         text="PARTIAL (altair/Vega-Lite validity is library behaviour, correspondence only). 25 kernel-checked theorems, none open, about the model of build_plot_data (both values of remove_empties: records_one_per_cell_in_order_opt, record_slots, spec_holds_on_model_opt) and FieldSummary: "
@@ -386,7 +395,8 @@ CLAIMS = {
         note=COMMON_NOTE + "altair/Vega-Lite validity and the chart builders are library behaviour (correspondence only); "
              "sd uses a square root (compared through its square); plot_drip/plot_hose fail on the unchanged tree with "
              "the installed altair and are excluded (probed and listed each run); ratios at tolerance 2^-40."
-             " Audit follow-up: the statistics are characterised independently of the model's formulas (order_statistics, sortRat_unique, minimum_is_least, maximum_is_greatest, quantile_between, quantile_at_grid, quantile_zero, quantile_one, median_eq_quantile_half, mean_mul_length, variance_pair and variance_eq_mean_sq pinning the POPULATION variance); flat and keep_samples are modelled (flat_unflat via flat_keys_injective, flatOk_model, keepSamples_stats_unchanged, keepSamples_metric_entry, keptOk_model); ValidT (no two cells share metadata, period and evaluation date; value keys of a cell distinct) is necessary (validT_necessary). The oracle for the implementation's numbers is the harness's recomputation with Python fractions. Outside: the square root of sd; Vega-Lite validity and chart layout (correspondence only; facet count compared with the model's slice count); with flat=True and keep_samples=True the sample dict is flattened to keys metric_<i> without the metric name, so samples of different metrics overwrite each other in the flat record (quirk of _flatten_dict; those keys are ignored by the check); numpy's summation order (means compared with tolerance 2^-40).",
+             " Audit follow-up: the statistics are characterised independently of the model's formulas (order_statistics, sortRat_unique, minimum_is_least, maximum_is_greatest, quantile_between, quantile_at_grid, quantile_zero, quantile_one, median_eq_quantile_half, mean_mul_length, variance_pair and variance_eq_mean_sq pinning the POPULATION variance); flat and keep_samples are modelled (flat_unflat via flat_keys_injective, flatOk_model, keepSamples_stats_unchanged, keepSamples_metric_entry, keptOk_model); ValidT (no two cells share metadata, period and evaluation date; value keys of a cell distinct) is necessary (validT_necessary). The oracle for the implementation's numbers is the harness's recomputation with Python fractions. Outside: the square root of sd; Vega-Lite validity and chart layout (correspondence only; facet count compared with the model's slice count); with flat=True and keep_samples=True the sample dict is flattened to keys metric_<i> without the metric name, so samples of different metrics overwrite each other in the flat record (quirk of _flatten_dict; those keys are ignored by the check); numpy's summation order (means compared with tolerance 2^-40)."
+             " Claim check: spec_holds_on_model is for a valid triangle (ValidT) and the default-call Spec (Spec.holds); holdsOpt (remove_empties), flatOk (flat) and keptOk (keep_samples) are bridged by spec_holds_on_model_opt, flatOk_model and keptOk_model; validT_necessary is one closed counterexample for ValidT's first clause (two cells sharing the coordinates); quantile_mono is for a non-empty sample and 0 <= q <= q'; record_slots and flat_unflat also need ValidT.",
         tech="Lean 4 theorems over Q (quantile monotonicity) and over regenerated tables + record-level correspondence"),
 }
 
